@@ -280,13 +280,21 @@ RECURSIVE HRunFrom(_, _, _)
 HRunFrom(h, s, i) == IF i > Len(s) THEN h ELSE HRunFrom(HDo(h, s[i]), s, i + 1)
 HRun(h, s) == HRunFrom(h, s, 1)
 
+\* the characters a raw-content state is holding back while it matches an end tag
+HeldChars(h) == CASE h.st \in {"rawlt", "sceslt"} -> <<60>>
+                  [] h.st = "rawendopen" -> <<60, 47>>
+                  [] h.st = "rawendname" -> <<60, 47>> \o Held(h.tmp)
+                  [] OTHER -> <<>>
+
 \* ---- the SLOT of a position: where would a value written here end up? ---------------------------
 RawStates == {"raw", "rawlt", "rawendopen", "rawendname", "scesstart", "scesstartdash", "sces", "scesdash", "scesdashdash",
               "sceslt", "scdbstart", "scdb", "scdbdash", "scdbdashdash", "scdblt", "scdbend"}
 Slot(h) ==
   CASE h.st = "data" -> "text"
     [] h.st \in {"tagopen", "endtagopen"} -> "tag-open"
-    [] h.st \in {"tagname", "battr", "attrname", "aattr", "bval", "vdq", "vsq", "vunq", "avalq", "selfclose"} /\ h.end -> "end-tag"
+    [] h.st = "vdq" /\ h.end -> "end-tag-dq"
+    [] h.st = "vsq" /\ h.end -> "end-tag-sq"
+    [] h.st \in {"tagname", "battr", "attrname", "aattr", "bval", "vunq", "avalq", "selfclose"} /\ h.end -> "end-tag"
     [] h.st = "tagname" -> "tag-name"
     [] h.st \in {"battr", "attrname", "aattr", "avalq", "selfclose"} -> "attr-name"
     [] h.st \in {"bval", "vunq"} -> "attr-unq"
@@ -296,10 +304,10 @@ Slot(h) ==
     [] h.st \in {"cstart", "cstartdash", "comment", "cenddash", "cend", "cendbang"} -> "comment"
     [] h.st = "doctype" -> "doctype"
     [] h.st = "plaintext" -> "plaintext"
-    [] h.st \in RawStates ->
-         CASE h.lang = "js" -> JSSlot(h.sub)
-           [] h.lang = "css" -> CSSSlot(h.sub)
-           [] h.lang = "json" -> JSONSlot(h.sub)
+    [] h.st \in RawStates ->      \* a value written here comes after the held `<`, `</`, `</nam`: they are content then
+         CASE h.lang = "js" -> JSSlot(FeedSeq(h, HeldChars(h)).sub)
+           [] h.lang = "css" -> CSSSlot(FeedSeq(h, HeldChars(h)).sub)
+           [] h.lang = "json" -> JSONSlot(FeedSeq(h, HeldChars(h)).sub)
            [] h.elem \in {NTitle, NTextarea} -> "rcdata"
            [] h.elem = NScript -> "script-data"
            [] h.elem = NStyle -> "style-data"
